@@ -1,7 +1,8 @@
 """C11 helpers: histories on the real in-memory backend with a *small* capacity.
 
 * `LruRunner`  - `memhist.Runner` that additionally records, after every effective protocol line, the keys the
-  store physically holds (in `OrderedDict` order, with their deadlines) and `get_keys_count()`.
+  store physically holds (in `OrderedDict` order, with their deadlines) and `get_keys_count()`; for a spliced
+  `purge` line: the content right after the purge task's last mutation of that sweep.
 * `judge`      - the property oracle, evaluated on the implementation's observations only: (P1) count <= capacity
   after every command; (P2) victim rule against the harness's own use log.
 * `Dfs`        - depth-first enumeration of all short histories on one backend object (state saved / restored
@@ -41,71 +42,26 @@ def snap_of(store) -> list[tuple[int, int | None]]:
 
 
 class LruRunner(memhist.Runner):
-    async def _setup(self):
-        await super()._setup()
-        self.sweep_snaps: dict[float, list] = {}
-        if self.cfg["purge"]:
-            backend = self.backend
-            purge_task = getattr(backend, "_Memory__remove_expired_task")
-            inner = backend.get
-            runner = self
+    """records: line, out, snap (after), now (ticks, after), count (after)"""
 
-            async def get(key, default=None):
-                r = await inner(key, default=default)
-                if asyncio.current_task() is purge_task:
-                    runner.sweep_snaps[CLOCK.t] = snap_of(backend.store)   # last one of a sweep wins
-                return r
+    snapshot = staticmethod(snap_of)
 
-            backend.get = get
+    async def _rec(self, line, out, snap=None, now=None):
+        if line.startswith("?"):
+            raise HarnessError(out)
+        self.recs.append({"line": line, "out": out,
+                          "snap": snap_of(self.backend.store) if snap is None else snap,
+                          "now": ticks(CLOCK.t if now is None else now),
+                          "count": await self.api.get_keys_count() if snap is None else len(snap)})
+
+    def _merge_into_sweep(self, idx, snap):
+        # the sweep recorded at `idx` went on after the harness had looked (nothing but `adv 0` since):
+        # its record, and the idle lines after it, stand for the store it finally left
+        for r in self.recs[idx:]:
+            r["snap"], r["count"] = snap, len(snap)
 
     async def run(self, ops: list[str]) -> list[dict]:
-        """-> one record per effective line: line, out, snap (after), now (ticks, after), count (after)"""
-        await self._setup()
-        rec: list[dict] = []
-
-        async def add(line, out, snap=None, now=None):
-            rec.append({"line": line, "out": out,
-                        "snap": snap_of(self.backend.store) if snap is None else snap,
-                        "now": ticks(CLOCK.t) if now is None else now,
-                        "count": await self.api.get_keys_count()})
-
-        for line in ops:
-            w = line.split()
-            if w[0] == "adv":
-                dt = int(w[1])
-                if not self.cfg["purge"]:
-                    CLOCK.advance(dt)
-                    await add(line, "U")
-                    continue
-                start = CLOCK.t
-                before = snap_of(self.backend.store)
-                self.sweeps.clear()
-                self.sweep_snaps.clear()
-                await vtime.vsleep(dt)
-                cur = start
-                for s in self.sweeps:
-                    if s not in self.sweep_snaps:
-                        raise HarnessError("purge sweep seen without a snapshot")
-                    await add(f"adv {round((s - cur) * 8)}", "U", snap=before, now=ticks(s))
-                    before = self.sweep_snaps[s]
-                    await add("purge", "U", snap=before, now=ticks(s))
-                    cur = s
-                await add(f"adv {round((CLOCK.t - cur) * 8)}", "U")
-                if rec[-1]["snap"] != before:
-                    raise HarnessError("store changed during a time advance outside a purge sweep")
-                self.sweeps.clear()
-                if round((CLOCK.t - start) * 8) != dt:
-                    raise HarnessError(f"slept {dt} ticks but the virtual clock moved {(CLOCK.t - start) * 8}")
-                self._bump("purge_sweeps_spliced")
-                continue
-            try:
-                out = await self._exec(w)
-            except Exception as exc:  # an exception class the model does not know is itself a disagreement
-                out = f"X:{type(exc).__name__}"
-            await add(line, out)
-        if hasattr(self.api, "close"):
-            await self.api.close()
-        return rec
+        return await self._history(ops)
 
 
 def execute(cfg: str, size: int, ops: list[str]):
@@ -252,7 +208,11 @@ class Oracle:
             # the code (and the model) treat it as one.  A failing input must break the rule under both readings.
             n = max(len(recent_others(self.log, k)), len(recent_others(self.log_b, k)))
             if n < self.cap:
-                bad.append(f"`{line}` evicted key {k} although only {n} < {self.cap} distinct other keys were used more recently")
+                if op == "purge":
+                    bad.append(f"the purge task removed key {k}, which had neither expired nor been deleted, although only "
+                               f"{n} < {self.cap} distinct other keys were used more recently")
+                else:
+                    bad.append(f"`{line}` evicted key {k} although only {n} < {self.cap} distinct other keys were used more recently")
         # bookkeeping for the statistics
         if stats is not None:
             def bump(name):
